@@ -551,6 +551,31 @@ func writeBackRegression(opt *config.PersistOptions) hcase {
 	return c
 }
 
+// concurrent heartbeats, outside the statement's storage clause (it asks for one heartbeat at a time): thread 1 puts region 1 and
+// is parked before its save; thread 2 puts region 2 (displacing region 1), deletes region 1 from storage (not there yet) and
+// saves region 2; then thread 1's save lands: storage keeps the displaced region.  Model and code agree on it
+// (C06_displaced_gone_from_storage_concurrent_refuted); cluster.go documents the unlocked storage writes as not fatal.
+func overtakenSaveProbe(opt *config.PersistOptions, wb bool) hcase {
+	c := hcase{WB: wb, tags: map[string]int{"outside-statement:save-overtaken-by-delete": 1}}
+	w := newWorld(wb, opt)
+	defer w.close()
+	g := &gen{r: rng.New(1), w: w, c: &c, ids: map[uint64]bool{}, last: time.Now()}
+	g.raw(hop{K: "snap"})
+	a := c07x.Region{ID: 1, Start: "a", End: "c", Peers: []c07x.Peer{{ID: 11, Store: 1}, {ID: 12, Store: 2}}, Leader: 11, Size: 10, Ver: 1, ConfVer: 1, Term: 1, Stamp: 1}
+	b := c07x.Region{ID: 2, Start: "a", End: "c", Peers: []c07x.Peer{{ID: 21, Store: 1}, {ID: 22, Store: 2}}, Leader: 21, Size: 10, Ver: 2, ConfVer: 1, Term: 1, Stamp: 2}
+	g.step(hop{K: "begin", T: 1, R: &a})
+	g.step(hop{K: "step", T: 1}) // locked section of thread 1: region 1 served, save pending
+	g.step(hop{K: "begin", T: 2, R: &b})
+	g.step(hop{K: "step", T: 2}) // locked section of thread 2: region 1 displaced
+	g.step(hop{K: "step", T: 2}) // DeleteRegion(1)
+	g.step(hop{K: "step", T: 2}) // SaveRegion(2)
+	g.step(hop{K: "step", T: 1}) // SaveRegion(1): overtaken
+	if wb {
+		g.step(hop{K: "flush"})
+	}
+	return c
+}
+
 // the automatic flush of the write-back batch counts saves only: 99 saves, one of them displaced (a delete that must not
 // touch cacheSize), then the 100th save flushes.  A Remove that resets or bumps the counter moves the flush.
 func autoFlushRegression(opt *config.PersistOptions) hcase {
@@ -576,9 +601,10 @@ func autoFlushRegression(opt *config.PersistOptions) hcase {
 	return c
 }
 
-// term probe: a reported term, then a heartbeat without term (TiKV before 3.0), then a smaller reported term
+// regression (repaired by /repo 9338658): a reported term, then a heartbeat without term (TiKV before 3.0), then a smaller
+// reported term: the term-less heartbeat keeps the served term and the third heartbeat is rejected
 func termProbe(opt *config.PersistOptions) hcase {
-	c := hcase{WB: false, tags: map[string]int{"probe:unreported-term-gap": 1}}
+	c := hcase{WB: false, tags: map[string]int{"regression:unreported-term-gap(9338658)": 1}}
 	w := newWorld(false, opt)
 	defer w.close()
 	g := &gen{r: rng.New(1), w: w, c: &c, ids: map[uint64]bool{}, last: time.Now()}
@@ -676,6 +702,7 @@ func main() {
 	} else {
 		emit(writeBackRegression(opt))
 		emit(autoFlushRegression(opt))
+		emit(overtakenSaveProbe(opt, false)) // direct backend only: a save into the write-back batch is not a kv write the harness can park
 		emit(termProbe(opt))
 		master := rng.New(*seed)
 		small, large := c07x.Small(), c07x.Large()
